@@ -207,14 +207,16 @@ func (g *Graph) PathString(p []int) string {
 // satisfying via (from itself is not tested; a `to` vertex satisfying via counts). If not, a
 // witness path is returned.
 func (g *Graph) MustPass(from int, to []int, via func(int) bool) (bool, []int) {
-	isTo := map[int]bool{}
-	for _, t := range to {
-		isTo[t] = true
+	var starts []int
+	for _, s := range g.succ[from] {
+		if !via(s) {
+			starts = append(starts, s)
+		}
 	}
-	seen, parent := g.reach([]int{from}, via, nil)
+	seen, parent := g.reach(starts, via, nil)
 	for _, t := range to {
-		if seen[t] && t != from {
-			return false, g.pathTo(parent, t)
+		if seen[t] {
+			return false, append([]int{from}, g.pathTo(parent, t)...)
 		}
 	}
 	return true, nil
